@@ -52,7 +52,12 @@ func withSpareCapacity(v interface{}) interface{} {
 }
 
 // tailsIntact checks the hidden tails of all arrays.
-func tailsIntact(v interface{}) bool {
+func tailsIntact(v interface{}) bool { return tailsIntactDepth(v, 0) }
+
+func tailsIntactDepth(v interface{}, depth int) bool {
+	if depth > 10000 {
+		return false // cyclic: certainly modified
+	}
 	switch t := v.(type) {
 	case []interface{}:
 		full := t[:cap(t)]
@@ -62,13 +67,13 @@ func tailsIntact(v interface{}) bool {
 			}
 		}
 		for _, e := range t {
-			if !tailsIntact(e) {
+			if !tailsIntactDepth(e, depth+1) {
 				return false
 			}
 		}
 	case map[string]interface{}:
 		for _, e := range t {
-			if !tailsIntact(e) {
+			if !tailsIntactDepth(e, depth+1) {
 				return false
 			}
 		}
@@ -222,19 +227,19 @@ func predJSONData(c Case) (r Result) {
 		}
 		if !isJSONData(o.Val) {
 			r.Violation = "a successful Search returned a value that is not JSON data"
-			r.Expected, r.Got = "null, booleans, finite numbers, strings, non-nil arrays and string-keyed objects", fmt.Sprintf("%#v", o.Val)
+			r.Expected, r.Got = "null, booleans, finite numbers, strings, non-nil arrays and string-keyed objects", show(o.Val)
 			return
 		}
 		b, err := json.Marshal(o.Val)
 		if err != nil {
 			r.Violation = "the result cannot be serialised as JSON: " + err.Error()
-			r.Got = fmt.Sprintf("%#v", o.Val)
+			r.Got = show(o.Val)
 			return
 		}
 		back, err := ref.ParseJSON(string(b))
 		if err != nil || !reflect.DeepEqual(back, o.Val) {
 			r.Violation = "the result does not survive a JSON round trip"
-			r.Expected, r.Got = fmt.Sprintf("%#v", o.Val), fmt.Sprintf("%#v", back)
+			r.Expected, r.Got = show(o.Val), fmt.Sprintf("%#v", back)
 			return
 		}
 		if o.Val != nil {
